@@ -52,6 +52,15 @@ def _norm_fingerprint(fn_node):
     if node.body and isinstance(node.body[0], ast.Expr) and isinstance(node.body[0].value, ast.Constant) \
             and isinstance(node.body[0].value.value, str):
         node.body = node.body[1:]
+    # annotations and nested docstrings say nothing about behaviour
+    for n in ast.walk(node):
+        if isinstance(n, ast.arg):
+            n.annotation = None
+        elif isinstance(n, (ast.FunctionDef, ast.AsyncFunctionDef)):
+            n.returns = None
+            if n is not node and n.body and isinstance(n.body[0], ast.Expr) and isinstance(n.body[0].value, ast.Constant) \
+                    and isinstance(n.body[0].value.value, str) and len(n.body) > 1:
+                n.body = n.body[1:]
     # two-armed ifs in one polarity: `if not c: B else: A` reads as `if c: A else: B`
     for n in ast.walk(node):
         if isinstance(n, ast.If) and n.orelse:
